@@ -4,7 +4,7 @@
 All fields are `int` typed (optionally `ge=0`), so "conforming value" = int (and >= 0); inputs are unbounded solver
 integers, the convertible string '5' or the invalid string 'x'.
 """
-from typing import List
+from typing import Final, List
 
 from utype import DataClass, Field, Options, Schema, exc
 
@@ -14,12 +14,12 @@ UNSET = object()
 
 
 def F(name, required=None, default=UNSET, factory=None, defer=False, alias=None, alias_from=(), ci=None,
-      no_input=False, no_output=False, mode=None, deps=(), on_error=None, ge=None, immutable=False, alias_fn=None, generated=False):
+      no_input=False, no_output=False, mode=None, deps=(), on_error=None, ge=None, immutable=False, alias_fn=None, generated=False, final=False):
     """alias / alias_from are the names the documentation prescribes; alias_fn is the callable given to Field(alias=...) that
     must produce `alias`; generated=True means alias / alias_from come from the class-level generators (not passed to Field)"""
     return dict(alias_fn=alias_fn, generated=generated, name=name, required=required, default=default, factory=factory, defer=defer, alias=alias,
                 alias_from=tuple(alias_from), ci=ci, no_input=no_input, no_output=no_output, mode=mode,
-                deps=tuple(deps), on_error=on_error, ge=ge, immutable=immutable)
+                deps=tuple(deps), on_error=on_error, ge=ge, immutable=immutable, final=final)
 
 
 def seven():
@@ -59,6 +59,8 @@ SPECS = {
     'depio': [F('x', required=False, deps=['y']), F('y', no_input=True, default=9), F('z', default=0, deps=['x'])],
     'aliaserr': [F('a', alias_from=['a1'], on_error='exclude', required=False, ge=0), F('b', alias='B1', alias_from=['b2'], ge=0, on_error='preserve', required=False),
                  F('c', default=1)],
+    # Final annotations: without a default the field takes input (once), with a default it takes none
+    'final': [F('a', final=True), F('b', final=True, default=3, no_input=True), F('c', default=1)],
     'modereq': [F('a', required='w', default=6), F('b', required='a', factory=seven), F('c', required='r', default=1, no_output='w')],
     'mix': [F('a', alias='A1', ci=True), F('b', alias_from=['b1'], default=0, deps=['a']),
             F('c', no_input=True, default=2), F('d', ge=0, on_error='exclude', required=False)],
@@ -110,7 +112,7 @@ def make_class(spec_id, base='Schema', class_opts=None):
         return _CACHE[key]
     spec = SPECS[spec_id]
     name = 'D_%s_%s' % (spec_id, base)
-    ns = {'__annotations__': {f['name']: int for f in spec}, '__module__': __name__, '__qualname__': name}
+    ns = {'__annotations__': {f['name']: (Final[int] if f['final'] else int) for f in spec}, '__module__': __name__, '__qualname__': name}
     for f in spec:
         ns[f['name']] = field_obj(f)
     class_opts = dict(CLASS_OPTIONS.get(spec_id, {}), **(class_opts or {}))
